@@ -3,11 +3,14 @@
  * schedule (which bytes are compressed from which address, when the history is moved where) is logged for the model of Model/FrameLinked.lean */
 static int vf_compress_fast_continue(LZ4_stream_t* s, const char* src, char* dst, int n, int cap, int acc);
 static int vf_saveDict(LZ4_stream_t* s, char* safe, int k);
+static int vf_fastReset(void* state, const char* src, char* dst, int n, int cap, int acc);
 #define LZ4_compress_fast_continue vf_compress_fast_continue
 #define LZ4_saveDict vf_saveDict
+#define LZ4_compress_fast_extState_fastReset vf_fastReset
 #else
 #undef LZ4_compress_fast_continue
 #undef LZ4_saveDict
+#undef LZ4_compress_fast_extState_fastReset
 static int g_life_on = 0; static unsigned char* g_life = NULL; static size_t g_life_n = 0, g_life_cap = 0; static unsigned long long g_life_blocks = 0, g_life_saves = 0;
 static void life_put(const void* d, size_t n) { if (g_life_n + n > g_life_cap) { g_life_cap = (g_life_n + n) * 2 + 256; g_life = (unsigned char*)realloc(g_life, g_life_cap); } if (n) memcpy(g_life + g_life_n, d, n); g_life_n += n; }
 static unsigned char g_life_init[32 + 4 * LZ4_HASH_SIZE_U32]; static size_t g_life_init_n = 0;
@@ -29,5 +32,15 @@ static int vf_saveDict(LZ4_stream_t* s, char* safe, int k)
     int r = LZ4_saveDict(s, safe, k);
     if (g_life_on) { unsigned char kk = 1; unsigned long long a = (unsigned long long)(size_t)safe; life_put(&kk, 1); life_put(&a, 8); life_put(&k, 4); life_put(&r, 4); g_life_saves++; }
     return r;
+}
+/* independent-blocks frames: only the state of the context's LZ4 stream at the first block is needed (the blocks themselves follow from the call pattern) */
+static int g_indep_on = 0; static unsigned char g_indep_init[32 + 4 * LZ4_HASH_SIZE_U32]; static size_t g_indep_init_n = 0;
+static int vf_fastReset(void* state, const char* src, char* dst, int n, int cap, int acc)
+{
+    if (g_indep_on && g_indep_init_n == 0) {
+        const LZ4_stream_t_internal* in = &((LZ4_stream_t*)state)->internal_donotuse; unsigned int v; unsigned char* q = g_indep_init;
+        v = in->currentOffset; memcpy(q, &v, 4); v = in->tableType; memcpy(q + 4, &v, 4); memcpy(q + 8, in->hashTable, 4 * LZ4_HASH_SIZE_U32);
+        g_indep_init_n = 8 + 4 * LZ4_HASH_SIZE_U32; }
+    return LZ4_compress_fast_extState_fastReset(state, src, dst, n, cap, acc);
 }
 #endif
